@@ -49,6 +49,7 @@ type coreScn struct {
 	mp       map[string]mangos.Pipe
 	mpMu     sync.Mutex
 	script   map[string]string
+	dwell    map[string]bool
 	answered int
 	npipe    int
 	base     map[uint32]bool
@@ -65,8 +66,13 @@ func (c *coreScn) newPipe() *vt.Pipe {
 	if len(c.cfg.Scripts) >= c.npipe {
 		sc = c.cfg.Scripts[c.npipe-1]
 	}
+	dwell := strings.HasSuffix(sc, "+dwell") // the callback stays inside for 150 ms (virtual) after closing the pipe
+	sc = strings.TrimSuffix(sc, "+dwell")
 	c.mpMu.Lock()
 	c.script[p.Name] = sc
+	if dwell {
+		c.dwell[p.Name] = true
+	}
 	c.pipes = append(c.pipes, p)
 	c.mpMu.Unlock()
 	c.s.Rec.Emit("mkpipe", "p", p.Name, "script", sc)
@@ -173,7 +179,7 @@ func (c *coreScn) step(st string) {
 
 func runCore(t *testing.T, cfg coreCfg) sim.Result {
 	return sim.Run(t, 10*time.Second, func(s *sim.S) {
-		c := &coreScn{s: s, cfg: cfg, mp: map[string]mangos.Pipe{}, script: map[string]string{}, base: map[uint32]bool{}}
+		c := &coreScn{s: s, cfg: cfg, mp: map[string]mangos.Pipe{}, script: map[string]string{}, dwell: map[string]bool{}, base: map[uint32]bool{}}
 		for _, id := range protocol.VerifIDsInUse() {
 			c.base[id] = true
 		}
@@ -206,6 +212,12 @@ func runCore(t *testing.T, cfg coreCfg) sim.Result {
 				(ev == "attached" && scriptOf(name) == "closeAttached") ||
 				(ev == "detached" && scriptOf(name) == "closeInDetached") { // closing again what is already closed: allowed, no effect
 				_ = p.Close()
+				c.mpMu.Lock()
+				dw := c.dwell[name]
+				c.mpMu.Unlock()
+				if dw && ev != "detached" {
+					time.Sleep(150 * time.Millisecond)
+				}
 			}
 		})
 		if cfg.LateSock {
@@ -281,6 +293,10 @@ func coreScripted() []coreCfg {
 		{Asynch: true, MinT: 100 * ms, MaxT: 0, HasD: true, Scripts: []string{"closeInDetached", "closeInDetached"}, Steps: []string{"dial", "ansok", "drop p1", "adv 100ms", "ansok", "appclose p2", "adv 100ms", "ansok", "adv 1s"}},
 		{HasL: true, MinT: 100 * ms, Steps: []string{"listenerr", "listen", "listen", "listen", "offer", "lclose", "offer"}},
 		{Asynch: true, MinT: 100 * ms, MaxT: 100 * ms, HasD: true, Scripts: []string{"refuse", "dropInAdd"}, Steps: []string{"dial", "ansok", "adv 100ms", "ansok", "adv 100ms", "ansok", "dclose", "drop p3", "adv 1s"}},
+		// a connection lost inside a callback that outlasts the reconnect time: the redial does not wait for the
+		// callback (asynchronous dialing; Core.tla DialOK: a redial is over for the dialer once the connection exists)
+		{Asynch: true, MinT: 100 * ms, MaxT: 0, HasD: true, Scripts: []string{"closeAttaching+dwell", "none"}, Steps: []string{"dial", "ansok", "adv 100ms", "ansok", "adv 49ms", "adv 1ms", "adv 1s"}},
+		{Asynch: true, MinT: 100 * ms, MaxT: 0, HasD: true, Scripts: []string{"closeAttached+dwell", "closeAttaching+dwell", "none"}, Steps: []string{"dial", "ansok", "adv 100ms", "ansok", "adv 50ms", "adv 50ms", "ansok", "adv 1s"}},
 		// the delay has grown over three failed attempts; then a connection comes up that the protocol refuses, one that
 		// the hook closes in Attaching and one the peer drops during the protocol's AddPipe: none of them is a
 		// successful attach, so the delay goes on from where it was (and is back at the start only after a real attach)
